@@ -222,6 +222,9 @@ GRID_PARAMS = {"Periodogram": {"window": "hamming"}, "pcorrelogram": {"lag": 7, 
                "pyule": {"order": 4}, "pcovar": {"order": 4}, "pmodcovar": {"order": 5}, "parma": {"P": 3, "Q": 2, "lag": 12},
                "pma": {"Q": 3, "M": 10}, "pminvar": {"order": 6}, "pmusic": {"IP": 7, "NSIG": 2}, "pev": {"IP": 7, "NSIG": 2},
                "mtm_unity": {"NW": 2.5, "k": 4}, "mtm_eigen": {"NW": 2.5, "k": 4}, "mtm_adapt": {"NW": 2.5, "k": 4}}
+# high model orders (paths that only run beyond 16 or 32 coefficients), used with the two longer records
+GRID_PARAMS_HIGH = {"pburg": {"order": 20}, "pyule": {"order": 20}, "pminvar": {"order": 20}, "pcovar": {"order": 10},
+                    "pmodcovar": {"order": 10}, "pburg+": {"order": 34}, "pyule+": {"order": 34}}
 GRID_N = (17, 40, 150, 301)
 
 
@@ -243,3 +246,8 @@ def grid_points(rows=None, lengths=GRID_N):
                     continue
                 for nfft in sorted({N, N + 3, 2 * N}):
                     yield row, dict(GRID_PARAMS[row]), N, cplx, max(nfft, min_nfft(row, N, GRID_PARAMS[row]))
+                if N >= 150 and cplx != "zi":
+                    for key in (row, row + "+"):
+                        if key in GRID_PARAMS_HIGH:
+                            q = dict(GRID_PARAMS_HIGH[key])
+                            yield row, q, N, cplx, max(N + 3, min_nfft(row, N, q))
